@@ -9,6 +9,7 @@
 (*   BmGrant      Grant(t, m)         BmCall     Call(t) with the captured  *)
 (*                                               dependency machines        *)
 (*   BmReply nil  Work(t), succeeding BmReply err Work(t), failing          *)
+(*   BmReply fatal  Work(t) of a task whose user code fails; TaskState ERROR then SetErr(t) *)
 (*   BmSetLoc     SetLoc(t)           SmAssign   AssignOk(t) / Assign(t)    *)
 (*                                               with the logged lost flag  *)
 (*   TaskState OK    SetOk(t) (code as found) or no step (repaired code)    *)
@@ -37,6 +38,7 @@ TTasks == SetOf(Hdr.tasks)
 TDeps == [t \in TTasks |-> SetOf(Hdr.deps[t])]
 TRoots == SetOf(Hdr.roots)
 TMach == SetOf(Hdr.machs)
+TFaulty == SetOf(Hdr.faulty)
 
 ResetAll == /\ st' = [t \in Tasks |-> "INIT"] /\ loc' = [t \in Tasks |-> NoMach]
             /\ alive' = [m \in Mach |-> TRUE] /\ known' = [m \in Mach |-> FALSE]
@@ -81,7 +83,7 @@ Match(ev) ==
          /\ {run'[ev.t].locs[d] : d \in Deps[ev.t]} = SetOf(ev.machines) /\ UNCHANGED <<tokill, early>>
     [] k = "BmReply" ->
          /\ run[ev.t].m = ev.m /\ Work(ev.t)
-         /\ run'[ev.t].pc = (IF ev.err = "nil" THEN "done" ELSE "fail") /\ UNCHANGED <<tokill, early>>
+         /\ run'[ev.t].pc = (IF ev.err = "nil" THEN "done" ELSE IF ev.err = "fatal" THEN "fatal" ELSE "fail") /\ UNCHANGED <<tokill, early>>
     [] k = "BmSetLoc" -> run[ev.t].m = ev.m /\ SetLoc(ev.t) /\ UNCHANGED <<tokill, early>>
     [] k = "SmAssign" ->
          /\ run[ev.t].m = ev.m /\ known[ev.m] = ev.lost
@@ -92,6 +94,7 @@ Match(ev) ==
               [] ev.st = "LOST" -> \/ SetLost(ev.t)
                                    \/ MonitorMark(ev.t)
                                    \/ st[ev.t] = "LOST" /\ run[ev.t].pc \notin {"fail", "granted"} /\ ev.t \notin pendlost /\ Stutter
+              [] ev.st = "ERROR" -> IF run[ev.t].pc = "fatal" THEN SetErr(ev.t) ELSE Stutter
               [] OTHER -> Stutter
     [] k = "SmLost" -> MonitorBegin(ev.m) /\ mtasks[ev.m] = SetOf(ev.tasks) /\ UNCHANGED <<tokill, early>>
     [] k = "BmDiscardClaim" -> DiscardClaim(ev.t) /\ UNCHANGED <<tokill, early>>
